@@ -150,6 +150,29 @@ func NestedInParens(p *load.Prog, r *oblig.Report, rule string, funcs []*ssa.Fun
 }
 
 // indexZeroPath extends AccessPath for x[0].
+// pathsWithIndex: like pathWithIndex, with a phi in the indexed list expanded into its alternatives.
+func pathsWithIndex(v ssa.Value) []string {
+	if ld, ok := v.(*ssa.UnOp); ok && ld.Op == token.MUL {
+		if ia, ok := ld.X.(*ssa.IndexAddr); ok {
+			if ph, ok := ia.X.(*ssa.Phi); ok {
+				idx := "?"
+				if c, ok := ia.Index.(*ssa.Const); ok && c.Value != nil {
+					idx = c.Value.ExactString()
+				}
+				var out []string
+				for _, e := range ph.Edges {
+					if c, isC := e.(*ssa.Const); isC && c.IsNil() {
+						continue
+					}
+					out = append(out, pathWithIndex(e)+"["+idx+"]")
+				}
+				return out
+			}
+		}
+	}
+	return []string{pathWithIndex(v)}
+}
+
 func pathWithIndex(v ssa.Value) string {
 	switch x := v.(type) {
 	case *ssa.UnOp:
@@ -211,7 +234,9 @@ func FirstPositionRecursion(p *load.Prog, r *oblig.Report, rule string) {
 					continue
 				}
 				if callee == fn && len(call.Common().Args) >= 2 {
-					got[subst(pathWithIndex(call.Common().Args[1]), env)] = true
+					for _, pth := range pathsWithIndex(call.Common().Args[1]) {
+						got[subst(pth, env)] = true
+					}
 					continue
 				}
 				if callee.Pkg == fn.Pkg && len(callee.Blocks) > 0 && depth < 2 && callee != f {
@@ -266,40 +291,159 @@ func ValidatorGuard(p *load.Prog, r *oblig.Report, rule string) {
 		return
 	}
 	construct := "validator-guard:parseRelation"
-	n := 0
-	for _, ret := range SuccessReturns(fn) {
-		if isConstString(ret.Results[0], "") {
-			continue
-		}
-		n++
-		// collect the conditions on the way: SSA lowers a || (b && c) into a chain; the return block must be
-		// reachable only through: occ==0 true, or occ==0 false && occ==1 true && isFirstPosition true
-		preds := ret.Block().Preds
-		okAll := len(preds) > 0
-		desc := []string{}
-		for _, pb := range preds {
-			last, isIf := pb.Instrs[len(pb.Instrs)-1].(*ssa.If)
-			if !isIf {
-				okAll = false
-				continue
-			}
-			branch := pb.Succs[0] == ret.Block()
-			d, good := guardDisjunct(last.Cond, branch, fn)
-			desc = append(desc, d)
-			if !good {
-				okAll = false
-			}
-		}
-		if okAll {
-			sort.Strings(desc)
-			r.OK(rule, construct, p.Pos(ret.Pos()), "guard-shape", strings.Join(desc, " | "))
-		} else {
-			sort.Strings(desc)
-			r.Bad(rule, construct, p.Pos(ret.Pos()), "the DSL text of a relation is returned under {"+strings.Join(desc, " | ")+"}; required: occurrences()==0, or occurrences()==1 and isFirstPosition(<the relation's own rewrite>): otherwise a second or misplaced direct assignment is printed as different DSL instead of the nesting error")
+	// The text of a relation may be returned only when occurrences()==0, or occurrences()==1 and
+	// isFirstPosition(<own rewrite>) holds. Decided by walking the CFG under each of the six valuations of
+	// (occurrences ∈ {0, 1, more}, isFirstPosition ∈ {true, false}); conditions on anything else are explored both
+	// ways. The spelling of the guard (negated, hoisted into locals, early error return) does not matter.
+	var relParam *ssa.Parameter
+	for _, q := range fn.Params {
+		if strings.HasSuffix(q.Type().String(), "openfga/v1.Userset") {
+			relParam = q
 		}
 	}
-	if n == 0 {
-		r.Unknown(rule, construct, p.Pos(fn.Pos()), "no successful return with text found")
+	isOcc := func(v ssa.Value) bool {
+		c, ok := v.(*ssa.Call)
+		return ok && c.Common().StaticCallee() != nil && c.Common().StaticCallee().Name() == "occurrences"
+	}
+	wrongArg := ""
+	var eval func(v ssa.Value, occ int, first bool, prev, cur *ssa.BasicBlock, depth int) (bool, bool)
+	eval = func(v ssa.Value, occ int, first bool, prev, cur *ssa.BasicBlock, depth int) (bool, bool) {
+		if depth > 8 {
+			return false, false
+		}
+		switch x := v.(type) {
+		case *ssa.Const:
+			if x.Value != nil && x.Value.Kind() == constant.Bool {
+				return constant.BoolVal(x.Value), true
+			}
+		case *ssa.UnOp:
+			if x.Op == token.NOT {
+				r, k := eval(x.X, occ, first, prev, cur, depth+1)
+				return !r, k
+			}
+		case *ssa.BinOp:
+			var c *ssa.Const
+			var other ssa.Value
+			if cc, ok := x.Y.(*ssa.Const); ok {
+				c, other = cc, x.X
+			} else if cc, ok := x.X.(*ssa.Const); ok {
+				c, other = cc, x.Y
+			}
+			if c != nil && isOcc(other) && c.Value != nil && c.Value.Kind() == constant.Int {
+				k := int(c.Int64())
+				val := occ // 0, 1, or 2 standing for "more than one"
+				var res bool
+				switch x.Op {
+				case token.EQL:
+					res = val == k
+				case token.NEQ:
+					res = val != k
+				case token.GTR:
+					res = val > k
+				case token.GEQ:
+					res = val >= k
+				case token.LSS:
+					res = val < k
+				case token.LEQ:
+					res = val <= k
+				default:
+					return false, false
+				}
+				if other == x.Y && c == x.X { // constant on the left: flip the relational operators
+					switch x.Op {
+					case token.GTR:
+						res = k > val
+					case token.GEQ:
+						res = k >= val
+					case token.LSS:
+						res = k < val
+					case token.LEQ:
+						res = k <= val
+					}
+				}
+				if k > 2 {
+					return false, false
+				}
+				return res, true
+			}
+		case *ssa.Call:
+			if cal := x.Common().StaticCallee(); cal != nil && cal.Name() == "isFirstPosition" {
+				if len(x.Common().Args) == 2 && relParam != nil && x.Common().Args[1] != ssa.Value(relParam) {
+					wrongArg = AccessPath(x.Common().Args[1])
+				}
+				return first, true
+			}
+		case *ssa.Phi:
+			if x.Block() == cur && prev != nil {
+				for i, pb := range cur.Preds {
+					if pb == prev {
+						return eval(x.Edges[i], occ, first, nil, prev, depth+1)
+					}
+				}
+			}
+		}
+		return false, false
+	}
+	type vis struct {
+		b, prev *ssa.BasicBlock
+	}
+	reach := func(occ int, first bool) bool {
+		seen := map[vis]bool{}
+		found := false
+		var walk func(b, prev *ssa.BasicBlock)
+		walk = func(b, prev *ssa.BasicBlock) {
+			if seen[vis{b, prev}] || found {
+				return
+			}
+			seen[vis{b, prev}] = true
+			switch t := b.Instrs[len(b.Instrs)-1].(type) {
+			case *ssa.Return:
+				ei := returnsError(fn)
+				if ei >= 0 && ei < len(t.Results) {
+					if c, ok := t.Results[ei].(*ssa.Const); ok && c.IsNil() && !isConstString(t.Results[0], "") {
+						found = true
+					}
+				}
+			case *ssa.If:
+				res, known := eval(t.Cond, occ, first, prev, b, 0)
+				if !known || res {
+					walk(b.Succs[0], b)
+				}
+				if !known || !res {
+					walk(b.Succs[1], b)
+				}
+			default:
+				for _, sc := range b.Succs {
+					walk(sc, b)
+				}
+			}
+		}
+		walk(fn.Blocks[0], nil)
+		return found
+	}
+	var allowed, forbidden []string
+	for _, occ := range []int{0, 1, 2} {
+		for _, first := range []bool{true, false} {
+			desc := fmt.Sprintf("occurrences=%s,isFirstPosition=%v", []string{"0", "1", ">1"}[occ], first)
+			ok := reach(occ, first)
+			legal := occ == 0 || (occ == 1 && first)
+			switch {
+			case ok && !legal:
+				forbidden = append(forbidden, desc)
+			case ok:
+				allowed = append(allowed, desc)
+			}
+		}
+	}
+	switch {
+	case wrongArg != "":
+		r.Bad(rule, construct, p.Pos(fn.Pos()), "isFirstPosition is asked about "+wrongArg+", not about the relation's own rewrite: the position of the direct assignment inside this relation is not what is checked")
+	case len(forbidden) > 0:
+		r.Bad(rule, construct, p.Pos(fn.Pos()), "the DSL text of a relation can be returned when {"+strings.Join(forbidden, " | ")+"}; required: occurrences()==0, or occurrences()==1 and isFirstPosition(<the relation's own rewrite>): otherwise a second or misplaced direct assignment is printed as different DSL instead of the nesting error")
+	case len(allowed) == 0:
+		r.Unknown(rule, construct, p.Pos(fn.Pos()), "no successful return with text is reachable under any valuation of the guard")
+	default:
+		r.OK(rule, construct, p.Pos(fn.Pos()), "guard-valuations", "text is returned only under {"+strings.Join(allowed, " | ")+"}")
 	}
 	// incr on every This branch of parseSubRelation, with the validator it received
 	sub := p.Func("transformer", "parseSubRelation")
